@@ -66,8 +66,51 @@ def handler_program(rng):
     return "\n".join(L) + "\n"
 
 
+def branch_matrix():
+    """Every branch mnemonic (base and pseudo) with zero / register in each operand position, run
+    with operand values that exercise both outcomes: the fall-through and the taken edge of a
+    branch must both be in the graph unless the branch can never / must always be taken."""
+    out = []
+    two = ["beq", "bne", "blt", "bge", "bltu", "bgeu", "bgt", "ble", "bgtu", "bleu"]
+    one = ["beqz", "bnez", "bgez", "bltz", "blez", "bgtz"]
+    for v in (0, 5, -5):
+        for m in two:
+            for a, b in (("zero", "t0"), ("t0", "zero"), ("zero", "zero"), ("t0", "t1"), ("t1", "t0"), ("t0", "t0")):
+                out.append(f"main:\n    li t0, {v}\n    li t1, 1\n    {m} {a}, {b}, over\n    li a0, 1\n"
+                           f"    addi a0, a0, 1\nover:\n    li a7, 10\n    ecall\n")
+        for m in one:
+            for a in ("t0", "zero"):
+                out.append(f"main:\n    li t0, {v}\n    {m} {a}, over\n    li a0, 1\n    addi a0, a0, 1\n"
+                           f"over:\n    li a7, 10\n    ecall\n")
+    # the same inside a counted loop (fall-through reachable only through the branch)
+    for m, a, b in (("bgeu", "zero", "t0"), ("bleu", "t0", "zero"), ("bge", "zero", "t0"), ("beq", "t0", "zero")):
+        out.append(f"main:\n    li t0, 3\nloop:\n    {m} {a}, {b}, done\n    addi t0, t0, -1\n    j loop\n"
+                   f"done:\n    li a7, 10\n    ecall\n")
+    return out
+
+
+def ecall_matrix():
+    """One program per documented environment call: every argument register is set right before
+    the call and only for it; every result register is read right after it."""
+    import spec_ecalls
+    out = []
+    for num, (args, rets) in sorted(spec_ecalls.RARS.items()):
+        if num in (10, 93):
+            continue
+        L = ["main:"]
+        for k, r in enumerate(args):
+            L.append(f"    li x{r}, {k + 2}")
+        L += [f"    li a7, {num}", "    ecall"]
+        for r in rets:
+            L.append(f"    addi t0, x{r}, 1")
+            L.append("    mv a0, t0")
+        L += ["    li a7, 93", "    ecall"]
+        out.append("\n".join(L) + "\n")
+    return out
+
+
 def gen_programs(rng, n, sloppy_choices=(0, 0.1, 0.3), multi=0.15):
-    out = list(CORPUS)
+    out = list(CORPUS) + branch_matrix() + ecall_matrix()
     for _ in range(max(4, n // 10)):
         out.append(handler_program(rng))
     for _ in range(n):
